@@ -145,6 +145,16 @@ def canon_model(reply):
         return 'bad-reply ' + reply[:200]
 
 
+def drv_run(ctx, reqs):
+    """ctx.driver.run, patient while somebody else's `lake build` relinks the driver binary"""
+    for _ in range(60):
+        try:
+            return ctx.driver.run(reqs)
+        except OSError:
+            time.sleep(2.0)
+    raise lib.Infra('driver binary unavailable for two minutes')
+
+
 def doc_key(doc):
     return hashlib.sha1(doc.encode('utf-8')).hexdigest()[:16]
 
@@ -476,7 +486,7 @@ def check_docs(ctx, items, state):
                 ctx.fail(sig, what, case)
         reqs.append('c03 parse %d %s' % (legacy, lib.hx(doc)))
         recs.append((doc, legacy, c1, case))
-    replies = ctx.driver.run(reqs)
+    replies = drv_run(ctx, reqs)
     if replies is None:
         return
     for (doc, legacy, c1, case), rep in zip(recs, replies):
